@@ -176,7 +176,7 @@ theorem step_stream_grows (cfg : WCfg) (hf : FOK cfg.parser.filter) (w : World) 
     unfold stepWorld
     obtain ⟨ext, hext, _⟩ := stream_execAt cfg w src.other t isTxn cmds .book
     exact ⟨ext, hext⟩
-  | restart src p =>
+  | restart src p sq =>
     unfold stepWorld
     simp only
     split
@@ -184,14 +184,14 @@ theorem step_stream_grows (cfg : WCfg) (hf : FOK cfg.parser.filter) (w : World) 
     · exact ⟨[], by simp⟩
 
 def Ev.isRestart : Ev → Prop
-  | .restart _ _ => True
+  | .restart _ _ _ => True
   | _ => False
 
 theorem step_link_same (cfg : WCfg) (w : World) (e : Ev) (hne : ¬ e.isLink) (hnr : ¬ e.isRestart) (t : SiteId) :
     (stepWorld cfg w e).link t = w.link t := by
   cases e with
   | link _ _ => exact absurd trivial hne
-  | restart _ _ => exact absurd trivial hnr
+  | restart _ _ _ => exact absurd trivial hnr
   | client s isTxn cmds =>
     unfold stepWorld
     simp only
@@ -268,10 +268,10 @@ theorem content_step (cfg : WCfg) (hf : FOK cfg.parser.filter) (w : World) (hinv
     | snapshot _ _ _ => exact absurd hl (by simp [Ev.isLink])
     | book _ _ => exact absurd hl (by simp [Ev.isLink])
     | toolRaw _ _ _ => exact absurd hl (by simp [Ev.isLink])
-    | restart _ _ => exact absurd hl (by simp [Ev.isLink])
+    | restart _ _ _ => exact absurd hl (by simp [Ev.isLink])
   · by_cases hr : e.isRestart
     · cases e with
-      | restart src q =>
+      | restart src q sq =>
         apply lift
         unfold stepWorld at hp
         simp only at hp
@@ -415,7 +415,7 @@ theorem drain_count (cfg : WCfg) (hf : FOK cfg.parser.filter) (more : List Ev) (
     | snapshot _ _ _ => exact absurd he (by simp [Ev.isLink])
     | book _ _ => exact absurd he (by simp [Ev.isLink])
     | toolRaw _ _ _ => exact absurd he (by simp [Ev.isLink])
-    | restart _ _ => exact absurd he (by simp [Ev.isLink])
+    | restart _ _ _ => exact absurd he (by simp [Ev.isLink])
 
 /-! ### the drain reaches a state with nothing pending -/
 
@@ -662,6 +662,6 @@ theorem quiesce_settled (cfg : WCfg) (hf : FOK cfg.parser.filter) (more : List E
     | snapshot _ _ _ => exact absurd he (by simp [Ev.isLink])
     | book _ _ => exact absurd he (by simp [Ev.isLink])
     | toolRaw _ _ _ => exact absurd he (by simp [Ev.isLink])
-    | restart _ _ => exact absurd he (by simp [Ev.isLink])
+    | restart _ _ _ => exact absurd he (by simp [Ev.isLink])
 
 end GunYu.Bisync
